@@ -156,7 +156,7 @@ def run(ctx, rep):
     rep.check(types_ok, "R4", key(prr, None, "liability scaling for WIN and for PLACE / OTHER_PLACE markets"), prr, None, str(sorted(mt)))
     sc = [n for n in cfgp.live_nodes() if n.kind == "stmt" and isinstance(n.ast, ast.AugAssign)
           and utext(n.ast.target) == "order.order_type.liability"]
-    good = len(sc) == 2
+    good = len(sc) >= 1
     for n in sc:
         gs = [(utext(g.exprs[0]), pol) for g, pol in cfgp.guards(n.id)]
         good = good and ("order.order_type.ORDER_TYPE == OrderTypes.MARKET_ON_CLOSE", True) in gs and \
